@@ -566,3 +566,27 @@ pub fn run_c02(ctx: &Ctx) -> Report {
 pub fn run_c03(ctx: &Ctx) -> Report {
     run_codec(ctx, "C03")
 }
+
+/// small single-threaded workload for the Miri shards: all C02 and C03 identities on `n` packets
+pub fn miri_workload(seed: u64, n: usize) -> Report {
+    let mut rep = Report::new("miri shard: codec identities");
+    let kinds = gen::all_kind_versions();
+    let mut r = Rng::new(seed);
+    for i in 0..n {
+        let (k, v) = kinds[(seed as usize + i) % kinds.len()];
+        let idw = if i % 2 == 0 { 2 } else { 4 };
+        let cfg = GenCfg { big_pm: 0, huge_pm: 0, idw };
+        let a = gen::gen_packet(&mut r, &cfg, k, v);
+        rep.evaluations += 1;
+        for which in ["C02", "C03"] {
+            if idw == 2 {
+                check_one::<u16>(&a, which, &mut rep, (0, i as u64));
+            } else {
+                check_one::<u32>(&a, which, &mut rep, (0, i as u64));
+            }
+        }
+    }
+    let cfg = GenCfg { big_pm: 0, huge_pm: 0, idw: 2 };
+    publish_helpers::<u16>(&mut r, &cfg, &mut rep, (0, 0));
+    rep
+}
